@@ -374,6 +374,11 @@ func codecFields(r *hlib.Rand) (cl.Fields, cert.Certificate, string) {
 			f.Groups[len(f.Groups)-1] = strings.Repeat("G", hlib.Pick(r, 127, 128, 252, 253, 254, 255, 256, 300, 1000))
 		}
 	}
+	if r.Chance(1, 60) { // whole encodings around every plausible size limit below MaxCertificateSize
+		for i, n := 0, hlib.Pick(r, 1100, 4090, 8190, 16380, 32760, 60000)/253; i < n; i++ {
+			f.Groups = append(f.Groups, fmt.Sprintf("%04d", i)+strings.Repeat("p", 246))
+		}
+	}
 	v6ok := version == 2 || r.Chance(1, 20)
 	nn := hlib.Pick(r, 1, 1, 2, 3, 30)
 	if isCA {
